@@ -277,6 +277,39 @@ def oracle_order0(ck, tier):
                                                                          else "image or distributions differ from those with odd=False"))
 
 
+def oracle_weight_units(ck, tier):
+    """weights are relative: a mask or weight map given in any unit (x 1e-20 … 1e+12) marks the same radii as having data and gives the
+    same distributions and image, for every order (order 0 has its own inversion branch) and both directions"""
+    import abel
+    rng = np.random.default_rng(seed() + 1661)
+    for it in range(8 if tier == "quick" else 60):
+        h, w = (int(v) for v in rng.integers(9, 22, size=2))
+        im = rng.random((h, w)) + 0.1
+        wt = (rng.random((h, w)) > 0.3).astype(float) if it % 2 == 0 else rng.random((h, w)) + 0.05
+        yy, xx = np.mgrid[:h, :w]
+        wt[np.abs(np.hypot(yy - h // 2, xx - w // 2) - 4.0) < 0.8] = 0          # a ring of radii without data
+        order = [0, 2, 0, 1][it % 4]
+        direction = ["inverse", "forward"][(it // 4) % 2]
+        try:
+            ref = quiet(abel.rbasex.rbasex_transform, im, order=order, weights=wt, direction=direction)
+        except Exception as e:
+            ck.violation(dict(site="rbasex_transform", clause="exception"), dict(shape=[h, w], order=order), f"{type(e).__name__}: {e}")
+            continue
+        for s_ in (1e-20, 1e-13, 1e-6, 1e12):
+            ck.count(("S.weight-units", order, direction, s_), suite="S.outputs")
+            rep = dict(shape=[h, w], order=order, direction=direction, weight_unit=s_, binary_mask=it % 2 == 0)
+            try:
+                got = quiet(abel.rbasex.rbasex_transform, im, order=order, weights=wt * s_, direction=direction)
+            except Exception as e:
+                ck.violation(dict(site="rbasex_transform", clause="exception"), rep, f"{type(e).__name__}: {e}")
+                continue
+            sc = max(1.0, np.abs(ref[1].cos()).max())
+            if not np.array_equal(got[1].valid, ref[1].valid) or np.abs(got[1].cos() - ref[1].cos()).max() > 1e-9 * sc or np.abs(got[0] - ref[0]).max() > 1e-9 * sc:
+                ck.violation(dict(site="rbasex_transform", clause="weight-unit"), rep,
+                             f"weights x {s_:g} (order {order}, {direction}): " + ("other radii are flagged as having data" if not np.array_equal(got[1].valid, ref[1].valid)
+                                                                                  else "distributions / image differ from those with the weights as given"))
+
+
 def run(tier):
     ck = Check("C16", tier)
     deep = tier == "thorough"
@@ -301,6 +334,7 @@ def run(tier):
     oracle(ck, tier, deep or bool(ck.broken))
     oracle_histories(ck, tier, deep)
     oracle_order0(ck, tier)
+    oracle_weight_units(ck, tier)
     return ck.finish()
 
 
